@@ -3,7 +3,9 @@
 (* of Position printed as JSON, one line per behaviour; every step carries  *)
 (* the event and the complete expected state after it (exact fractions).    *)
 (*                                                                          *)
-(*  GSpecX  exhaustive: every fill sequence of length MaxLen (C02)          *)
+(*  GSpecX  exhaustive: every fill sequence of length MaxLen, with a store/  *)
+(*          restore round trip (Persist) at every subset of the points where *)
+(*          a position is open (C02)                                         *)
 (*  GSpecF  simulation: long random fill sequences over a wider domain (C02)*)
 (*  GSpecM  simulation: random interleavings of fills and market events     *)
 (*          (public trades, L1 updates) with arbitrary exchange times (C15) *)
@@ -96,8 +98,27 @@ GFillAt(s, p0, q, f, t) ==
     /\ UNCHANGED <<dl1, dlt, done>>
     /\ hist' = Append(hist, FillRec)
 
-GFillX == /\ ~done /\ Len(hist) < MaxLen
+GFillX == /\ ~done /\ nfill < MaxLen
           /\ \E a \in Args : GFillAt(a[1], a[2], a[3], a[4], nfill + 1)
+
+\* ------------------------------------------------------------------ store and restore
+\* Persist: the harness serialises and deserialises the state that holds the position
+\* (PositionManager / EngineState.instruments) - a stutter; the expectation is the state as it is.
+GPersist ==
+    /\ Persist
+    /\ UNCHANGED <<dl1, dlt, tfill, now, uset, done>>
+    /\ hist' = Append(hist,
+          [a |-> "Persist", arm |-> "", exp |-> [pos |-> PosJ(pos, uset), exit |-> [side |-> "none"],
+                                                 price |-> PriceJ(DPrice(dl1, dlt))]])
+
+WasPersist == Len(hist) > 0 /\ hist[Len(hist)].a = "Persist"
+\* exhaustive: at every point where a position is open (once between two fills)
+GPersistX == /\ ~done /\ nfill < MaxLen /\ IsOpen(pos) /\ ~WasPersist /\ GPersist
+GFinishX  == /\ ~done /\ nfill = MaxLen
+             /\ done' = TRUE
+             /\ UNCHANGED <<pos, exited, net, cash, fees, nfill, fresh, last, hist, dl1, dlt, tfill, now, uset>>
+\* random: one step in five
+GPersistR == /\ ~done /\ Len(hist) < MaxLen /\ GPersist
 
 \* random behaviours over the wider domain end early when a long-lived position has accumulated
 \* fractions whose next cross-multiplication could leave TLC's 32-bit integers (DESIGN 5.5)
@@ -109,8 +130,10 @@ Big(P) == P.real[2] > 1500 \/ P.avg[2] > 64 \/ AbsI(P.real[1]) > 2000000 \/ P.un
 \* (every step would see the same draw).
 Rnd(S, dummy) == RandomElement(S)
 
-GFillR == /\ ~done /\ Len(hist) < MaxLen /\ ~Big(pos)
-          /\ \E a \in {Rnd(Args, hist)} : GFillAt(a[1], a[2], a[3], a[4], nfill + 1)
+GFillR0 == /\ ~done /\ Len(hist) < MaxLen /\ ~Big(pos)
+           /\ \E a \in {Rnd(Args, hist)} : GFillAt(a[1], a[2], a[3], a[4], nfill + 1)
+GFillR == /\ ~done /\ ~Big(pos)
+          /\ \E c \in {Rnd(1..5, hist)} : IF c = 1 /\ ~WasPersist THEN GPersistR ELSE GFillR0
 
 \* exchange time of an event of GSpecM: mostly fresh, sometimes equal to the last fill's, sometimes
 \* anything already used (stale, duplicates, reordering across the two market streams)
@@ -158,7 +181,7 @@ GMktR == /\ ~done /\ Len(hist) < MaxLen
 \* (the guard comes first on purpose: TLC splits an action at a top-level \E at start-up and would
 \*  evaluate the draw once for the whole run)
 GStepM == /\ ~done
-          /\ \E c \in {Rnd(1..5, hist)} : IF c <= 2 THEN GFillM ELSE GMktR
+          /\ \E c \in {Rnd(1..6, hist)} : IF c <= 2 THEN GFillM ELSE IF c = 6 THEN GPersistR ELSE GMktR
 
 GFinish == /\ ~done /\ Len(hist) = MaxLen
            /\ done' = TRUE
@@ -168,7 +191,8 @@ GAbort == /\ ~done /\ Len(hist) < MaxLen /\ Big(pos)
           /\ done' = TRUE
           /\ UNCHANGED <<pos, exited, net, cash, fees, nfill, fresh, last, hist, dl1, dlt, tfill, now, uset>>
 
-GSpecX == GInit /\ [][GFillX \/ GFinish]_gvars
+GSpecX == GInit /\ [][GFillX \/ GPersistX \/ GFinishX]_gvars
+GSpecXN == GInit /\ [][GFillX \/ GFinishX]_gvars          \* the same without Persist (C15's fill sequences)
 GSpecF == GInit /\ [][GFillR \/ GAbort \/ GFinish]_gvars
 GSpecM == GInit /\ [][GStepM \/ GFinish]_gvars
 
